@@ -17,19 +17,28 @@ func readTlvStream(
 	recvOff := 0
 	tlvOff := 0
 
+	// stop tells whether a read error ends the receive loop, and with which result
+	stop := func(err error) (bool, error) {
+		if ignoreError != nil && ignoreError(err) {
+			return false, nil
+		}
+		if errors.Is(err, io.EOF) {
+			return true, nil
+		}
+		return true, err
+	}
+
 	for {
-		readSize, err := reader.Read(recvBuf[recvOff:])
+		readSize, readErr := reader.Read(recvBuf[recvOff:])
 		recvOff += readSize
-		if err != nil {
-			if ignoreError != nil && ignoreError(err) {
-				continue
+		if readErr != nil && readSize == 0 {
+			if end, err := stop(readErr); end {
+				return err
 			}
-			if errors.Is(err, io.EOF) {
-				return nil
-			}
-			return err
+			continue
 		}
 
+		// A Read may return data together with an error: the data is processed first.
 		// Determine whether valid packet received
 		for {
 			rdr := enc.NewBufferReader(recvBuf[tlvOff:recvOff])
@@ -72,6 +81,12 @@ func readTlvStream(
 			copy(recvBuf, recvBuf[tlvOff:recvOff])
 			recvOff -= tlvOff
 			tlvOff = 0
+		}
+
+		if readErr != nil {
+			if end, err := stop(readErr); end {
+				return err
+			}
 		}
 	}
 }
